@@ -132,12 +132,52 @@ def make_case(rng, tier, i, name, aligner=False):
                 replay=rp, raised=raised, kind=('aligner/' if aligner else 'model/') + name)
 
 
-def run_fit(name, data, init, opts, iters, aligner):
-    o = dict(opts)
-    if aligner:
+class TieTap:
+    """inline aligner handed to fit: delegates to GreedyPermutationAlignment('cos') and records whether every score
+    matrix it met was tie-free (all K*K scores of a frequency pair distinct by a relative margin)"""
+    def __init__(self):
         from pb_bss.permutation_alignment import GreedyPermutationAlignment
-        o['inline_permutation_aligner'] = GreedyPermutationAlignment(similarity_metric='cos')
-    return mm.fit(name, data, init, iterations=iters, **o)
+        self.inner = GreedyPermutationAlignment(similarity_metric='cos')
+        self.min_gap = np.inf
+
+    def calculate_mapping(self, mask):
+        s = np.asarray(self.inner.get_score_matrix(mask[:, 1:, :], mask[:, :-1, :]), dtype=float)
+        flat = np.sort(s.reshape(s.shape[0], -1), axis=-1) if s.ndim == 3 else np.sort(s.reshape(1, -1), axis=-1)
+        if flat.shape[-1] > 1:
+            self.min_gap = min(self.min_gap, float(np.min(np.diff(flat, axis=-1))))
+        return self.inner.calculate_mapping(mask)
+
+    def apply_mapping(self, mask, mapping):
+        return self.inner.apply_mapping(mask, mapping)
+
+
+def run_fit(name, data, init, opts, iters, aligner):
+    """returns (model, trace, smallest score gap met by the inline aligner or inf)"""
+    o = dict(opts)
+    tap = None
+    if aligner:
+        tap = TieTap()
+        o['inline_permutation_aligner'] = tap
+    m, tr = mm.fit(name, data, init, iterations=iters, **o)
+    return m, tr, (tap.min_gap if tap is not None else np.inf)
+
+
+def deviations(name, shape, A, B, sigma):
+    """relative deviation of every observable of run B from the relabelled observable of run A"""
+    (mA, trA, pA), (mB, trB, pB) = A, B
+    d = {'posterior': ('posteriors', rel(pA[..., sigma, :], pB))}
+    for (lab, a, ax, sf), (_, b, _, _) in zip(class_observables(name, mA, shape), class_observables(name, mB, shape)):
+        ap = np.take(a, sigma, axis=ax)
+        d['param:' + lab.split('.')[0] + ':' + lab] = ('fitted ' + lab, relm(ap, b) if sf else rel(ap, b))
+    for it, (ra, rb) in enumerate(zip(trA, trB)):
+        for fld in ('affiliation', 'quadratic_form'):
+            if fld in ra and fld in rb:
+                sc = max(1.0, float(np.abs(ra[fld]).max())) if fld == 'quadratic_form' else 1.0
+                e = rel(ra[fld][..., sigma, :], rb[fld]) / sc
+                key = 'trace:' + fld
+                if key not in d or e > d[key][1]:
+                    d[key] = ('%s entering M-step %d' % (fld, it + 1), e)
+    return d
 
 
 def eval_perm(rp):
@@ -157,53 +197,71 @@ def eval_perm(rp):
     mask = opts.get('source_activity_mask')
     al = ' (inline aligner)' if (rp['aligner'] or opts.get('inline_permutation_alignment')) else ''
     alk = ':aligner' if al else ''
+
+    def run(init_, mask_, data_=None):
+        data_ = data if data_ is None else data_
+        o = dict(opts)
+        if mask_ is not None:
+            o['source_activity_mask'] = mask_
+        m, tr, gap = run_fit(name, data_, init_, o, iters, rp['aligner'])
+        p = mm.predict(name, m, data_, **({'source_activity_mask': mask_} if (name == 'cacgmm' and mask_ is not None) else {}))
+        return (m, tr, p), gap
     try:
-        mA, trA = run_fit(name, data, init, opts, iters, rp['aligner'])
-        pA = mm.predict(name, mA, data, **({'source_activity_mask': mask} if (name == 'cacgmm' and mask is not None) else {}))
+        A, gapA = run(init, mask)
     except EXPLICIT as e:
         return None, None, None, '%s: %s' % (type(e).__name__, str(e)[:120]), False      # refused without relabelling: outside C05
     except Exception as e:
         return ('fit/predict raised %s on a regular input: %s' % (type(e).__name__, str(e)[:300]),
                 'perm:raises:%s:%s' % (name, type(e).__name__), None, None, False)
+    if rp['aligner'] and not gapA > 1e-9:
+        return None, None, None, 'inline aligner met a tied score matrix (gap %.3g): outside the clause' % gapA, False
+    mA, trA, pA = A
     lam_min = lam_min_of(name, trA)
     tol = 1e-6 if name == 'cbmm' else max(1e-9, 1e-13 / lam_min) * (1 if iters == 1 else 10)
     well = tol <= 1e-7 or name == 'cbmm'
-    obsA = class_observables(name, mA, shape)
     nontrivial = False
     coq_parts = []
     r = np.random.default_rng(rp['pick'])
+    probe = None
     for pi, sigma in enumerate(rp['perms']):
         sigma = list(sigma)
         initB = np.ascontiguousarray(init[..., sigma, :])
-        optsB = dict(opts)
-        maskB = None
-        if mask is not None:
-            maskB = np.ascontiguousarray(mask[..., sigma, :])
-            optsB['source_activity_mask'] = maskB
+        maskB = None if mask is None else np.ascontiguousarray(mask[..., sigma, :])
         try:
-            mB, trB = run_fit(name, data, initB, optsB, iters, rp['aligner'])
-            pB = mm.predict(name, mB, data, **({'source_activity_mask': maskB} if (name == 'cacgmm' and maskB is not None) else {}))
+            B, gapB = run(initB, maskB)
         except Exception as e:
             return ('%s: fit succeeds for the original labelling but raises %s for sigma=%s: %s' % (name, type(e).__name__, sigma, str(e)[:200]),
                     'perm:raises-relabelled:%s' % name, None, None, False)
-        e = rel(pA[..., sigma, :], pB)
-        if e > tol:
-            return ('%s%s: posteriors of the relabelled fit (sigma=%s) differ from the relabelled posteriors after %d iteration(s) by %.3g'
-                    % (name, al, sigma, iters, e), 'perm:posterior:%s%s' % (name, alk), None, None, False)
-        obsB = class_observables(name, mB, shape)
-        for (lab, a, ax, sf), (_, b, _, _) in zip(obsA, obsB):
-            ap = np.take(a, sigma, axis=ax)
-            e = relm(ap, b) if sf else rel(ap, b)
-            if e > tol:
-                return ('%s%s: fitted %s of the relabelled fit (sigma=%s) differs from the relabelled %s after %d iteration(s) by %.3g'
-                        % (name, al, lab, sigma, lab, iters, e), 'perm:param:%s:%s%s' % (name, lab.split('.')[0], alk), None, None, False)
-        for it, (ra, rb) in enumerate(zip(trA, trB)):
-            for fld in ('affiliation', 'quadratic_form'):
-                if fld in ra and fld in rb:
-                    sc = max(1.0, float(np.abs(ra[fld]).max())) if fld == 'quadratic_form' else 1.0
-                    if rel(ra[fld][..., sigma, :], rb[fld]) > tol * sc:
-                        return ('%s%s: %s entering M-step %d of the relabelled fit (sigma=%s) is not the relabelled one'
-                                % (name, al, fld, it + 1, sigma), 'perm:trace:%s:%s%s' % (name, fld, alk), None, None, False)
+        dev = deviations(name, shape, A, B, sigma)
+        worst = max(dev, key=lambda k_: dev[k_][1])
+        if dev[worst][1] > tol:
+            # conditioning probe: the same fit (same labelling) with start and data perturbed at the 1e-13 level.  A
+            # deviation that such a perturbation reproduces is rounding amplified by an ill-conditioned trajectory (collapsing
+            # class, diverging concentration, oracle stopping tolerance), not a dependence on the labelling.
+            if probe is None:
+                pr = np.random.default_rng(rp['pick'] + 1)
+                ip = init + 1e-13 * pr.random(init.shape)
+                ip = ip / ip.sum(-2, keepdims=True)
+                dp = {}
+                for kk, vv in data.items():
+                    if np.iscomplexobj(vv):
+                        dp[kk] = vv * (1 + 1e-13 * (pr.uniform(-1, 1, vv.shape) + 1j * pr.uniform(-1, 1, vv.shape)))
+                    else:
+                        dp[kk] = vv * (1 + 1e-13 * pr.uniform(-1, 1, vv.shape))
+                try:
+                    probe = deviations(name, shape, A, run(ip, mask, dp)[0], list(range(K)))
+                except Exception:
+                    probe = {}
+            noise = max([v[1] for v in probe.values()] + [0.0])
+            if dev[worst][1] <= 10 * noise:
+                return None, None, None, ('ill-conditioned trajectory (a 1e-13 perturbation of start and data moves the result by %.3g): '
+                                          'outside the comparison' % noise), False
+            lab, e = dev[worst]
+            return ('%s%s: %s of the relabelled fit (sigma=%s) differ(s) from the relabelled result of the original fit after %d '
+                    'iteration(s) by %.3g (relative; a 1e-13 perturbation of start and data gives %.3g)' % (name, al, lab, sigma, iters, e, noise),
+                    'perm:%s:%s%s' % (worst.split(':')[0] + (':' + worst.split(':')[1] if worst.startswith('param') else ''), name, alk),
+                    None, None, False)
+        mB, trB, pB = B
         # non-triviality: sigma moves classes that the original fit distinguishes
         if rel(pA[..., sigma, :], pA) > 1e-3:
             nontrivial = True
